@@ -7,6 +7,7 @@ Registry for viral attribute propagation rules as defined by the VTL 2.2
 in :mod:`vtlengine.ViralPropagation.sql`.
 """
 
+import threading
 from dataclasses import dataclass, field
 from typing import Any, Dict, List, Optional
 
@@ -70,20 +71,22 @@ class ViralPropagationRegistry:
         self._valuedomain_rules.clear()
 
 
-# Module-level accessor for operators to use.
-# The Interpreter sets this at the start of each run() call.
-_current_registry: Optional[ViralPropagationRegistry] = None
+# Accessor for operators to use. The Interpreter sets the registry at the start of each
+# run()/semantic_analysis() call and the transpiler reads it back later in the same call.
+# It is kept per thread: with one process-global slot, concurrent calls from several
+# threads overwrote each other's rules between the semantic pass and transpilation.
+_state = threading.local()
 
 
 def get_current_registry() -> ViralPropagationRegistry:
-    """Get the current viral propagation registry."""
-    global _current_registry  # noqa: PLW0603
-    if _current_registry is None:
-        _current_registry = ViralPropagationRegistry()
-    return _current_registry
+    """Get the current viral propagation registry (of the calling thread)."""
+    registry: Optional[ViralPropagationRegistry] = getattr(_state, "registry", None)
+    if registry is None:
+        registry = ViralPropagationRegistry()
+        _state.registry = registry
+    return registry
 
 
 def set_current_registry(registry: ViralPropagationRegistry) -> None:
     """Set the current viral propagation registry (called by Interpreter)."""
-    global _current_registry  # noqa: PLW0603
-    _current_registry = registry
+    _state.registry = registry
